@@ -434,6 +434,18 @@ def rule_arg_names(ctx: Ctx, rels: List[str]) -> None:
             for c in [x for x in ast.walk(fn) if isinstance(x, ast.Call)]:
                 name = call_attr(c) or (c.func.id if isinstance(c.func, ast.Name) else None)
                 cands = defs.get(name, []) if name else []
+                ctor = False
+                if isinstance(c.func, ast.Name) and (c.func.id == "cls" or c.func.id in repo.classes):
+                    # a constructor call: `cls(...)` inside a classmethod, or `ClassName(...)` -> that class's __init__
+                    from ..core import enclosing_class as _ec
+                    cn_ = _ec(fn).name if c.func.id == "cls" and _ec(fn) is not None else c.func.id
+                    cis = repo.classes.get(cn_, [])
+                    if len(cis) == 1:
+                        lk = repo.lookup_method(cis[0], "__init__")
+                        if lk is not None:
+                            cands = [(lk[0].module, lk[1])]
+                            name = f"{cn_}.__init__"
+                            ctor = True
                 if not cands:
                     continue
                 sigs = {tuple(a.arg for a in f_.args.posonlyargs + f_.args.args) for _, f_ in cands}
@@ -441,9 +453,27 @@ def rule_arg_names(ctx: Ctx, rels: List[str]) -> None:
                     continue  # same name, different signatures: the callee is not determined without types
                 cm, cf = cands[0]
                 ps = [a.arg for a in cf.args.posonlyargs + cf.args.args]
-                if ps and ps[0] in ("self", "cls") and isinstance(c.func, ast.Attribute):
+                if ps and ps[0] in ("self", "cls") and (isinstance(c.func, ast.Attribute) or ctor):
                     ps = ps[1:]
-                args = [a.id if isinstance(a, ast.Name) else None for a in c.args]
+
+                def _nm(a):
+                    # how the argument is spelled: a plain name, the last attribute, or a string key (d["n_photons"])
+                    if isinstance(a, ast.Name):
+                        return a.id
+                    if isinstance(a, ast.Attribute):
+                        return a.attr
+                    if isinstance(a, ast.Subscript) and isinstance(a.slice, ast.Constant) and isinstance(a.slice.value, str):
+                        return a.slice.value
+                    return None
+
+                def _canon(t):
+                    t = t.lower().lstrip("_")
+                    return t[:-1] if t.endswith("s") and len(t) > 3 else t
+                raw = [_nm(a) for a in c.args]
+                pcanon = [_canon(p_) for p_ in ps]
+                if len(set(pcanon)) != len(pcanon):
+                    continue
+                args = [ps[pcanon.index(_canon(a))] if a is not None and _canon(a) in pcanon else None for a in raw]
                 sites += 1
                 bad = [(i, a) for i, a in enumerate(args) if a is not None and a in ps and i < len(ps) and ps[i] != a
                        and ps.index(a) < len(args) and args[ps.index(a)] in ps and args[ps.index(a)] != a]
